@@ -507,3 +507,30 @@ func zzC08GreaseECHWrite() {
 	}
 	verifReach("end")
 }
+
+// zzC08Covered: which harness decides encoder/decoder agreement for each
+// extension type of the library. The list of types is regenerated from the
+// source on every run (zzAllExtensionTypes); a type missing here is reported.
+var zzC08Covered = map[string]string{
+	"ALPNExtension": "alpn_alps", "applicationSettingsExtension": "alpn_alps (embedded by ApplicationSettingsExtension and ApplicationSettingsExtensionNew)",
+	"CookieExtension": "generic_grease_cookie_ticket", "GenericExtension": "generic_grease_cookie_ticket", "UtlsGREASEExtension": "generic_grease_cookie_ticket", "SessionTicketExtension": "generic_grease_cookie_ticket",
+	"ExtendedMasterSecretExtension": "fixed_extensions", "FakeChannelIDExtension": "fixed_extensions", "NPNExtension": "fixed_extensions", "SCTExtension": "fixed_extensions", "StatusRequestExtension": "fixed_extensions", "StatusRequestV2Extension": "fixed_extensions", "RenegotiationInfoExtension": "fixed_extensions",
+	"FakeDelegatedCredentialsExtension": "signature_algorithms", "SignatureAlgorithmsCertExtension": "signature_algorithms", "SignatureAlgorithmsExtension": "signature_algorithms",
+	"FakeRecordSizeLimitExtension": "record_size_token_binding", "FakeTokenBindingExtension": "record_size_token_binding",
+	"FakePreSharedKeyExtension": "psk_extensions", "UtlsPreSharedKeyExtension": "psk_extensions", "UnimplementedPreSharedKeyExtension": "psk_extensions (embedded base, no wire form of its own)",
+	"GREASEEncryptedClientHelloExtension": "grease_ech, grease_ech_write", "UnimplementedECHExtension": "grease_ech (embedded base, no wire form of its own)",
+	"KeyShareExtension": "key_share", "PSKKeyExchangeModesExtension": "compress_cert_versions_pskmodes", "SupportedVersionsExtension": "compress_cert_versions_pskmodes", "UtlsCompressCertExtension": "compress_cert_versions_pskmodes",
+	"QUICTransportParametersExtension": "quic_transport_parameters", "SNIExtension": "sni", "SupportedCurvesExtension": "supported_curves", "SupportedPointsExtension": "supported_points", "UtlsPaddingExtension": "padding_ext",
+}
+
+//verif:harness C08 every_extension_type_is_covered unwind=200
+//verif:expect end
+//verif:doc Coverage guard, not a solver claim: the list of types implementing TLSExtension is regenerated from /repo's source on every run; each must be named in the table that says which C08 harness decides its encoder/decoder agreement. A newly added extension type makes this check fail until a harness exists for it.
+func zzC08EveryExtensionTypeIsCovered() {
+	for _, n := range zzAllExtensionTypes {
+		_, ok := zzC08Covered[n]
+		verifAssertClass(ok, "extension-type-has-an-encoder-decoder-check", n)
+	}
+	verifAssert(len(zzAllExtensionTypes) >= 30, "type-table-was-generated")
+	verifReach("end")
+}
